@@ -337,8 +337,9 @@ func (er *encRun) roundTrip(stream string, t *target, m protoreflect.Message, fl
 			res.Count("model_skipped_large_document") // a list literal of that length overflows coqc's stack; the oracle still runs
 		} else if dpan == nil {
 			pf, pt := literalTables(o.Out)
-			er.em.cf.Terms = append(er.em.cf.Terms, fmt.Sprintf("CRound %s %s %s %s %s %s %s %s %s %s", t.Name, codecgen.BytesTerm(t.Env.Root), msgTerm(m),
-				facts.floatsTerm(), facts.innersTerm(), pf, pt, vh.BoolTerm(facts.maxMap <= 1), codecgen.BytesTerm(string(o.Out)), backTerm))
+			er.em.cf.Terms = append(er.em.cf.Terms, fmt.Sprintf("CRound %s %s %s %s %s %s %s %s %s %s %s", t.Name, codecgen.BytesTerm(t.Env.Root), msgTerm(m),
+				facts.floatsTerm(), facts.innersTerm(), pf, pt, vh.BoolTerm(facts.maxMap <= 1), codecgen.BytesTerm(string(o.Out)), backTerm,
+				vh.BoolTerm(facts.kinds["any"] == 0))) // messages are compared with dec's model unless an Any is inside (its j5_json is stored in another canonical spelling)
 			res.Cases = append(res.Cases, vh.CaseRec{Case: caseNo, Stream: stream, Input: in, Impl: map[string]any{"out": short(o.Out), "decode_err": fmt.Sprint(derr)}})
 		}
 	}
